@@ -177,6 +177,8 @@ async fn serve(
 
     info!("Client disconnected: {client_id} ({remote_addr:?})");
 
+    #[cfg(feature = "verif")]
+    crate::verif::perturb("before-disconnected").await;
     worterbuch.disconnected(client_id, None).await?;
 
     Ok(())
